@@ -1070,7 +1070,8 @@ pub fn suite_stress(t: &mut Trace, seed: u64, rounds: u64) -> String {
         let buf_cap = *rng.pick(&[2usize, 8, 64]);
         let max_cost = *rng.pick(&[6i64, 20, 1000]);
         let nthreads = rng.range(2, 6) as usize;
-        let nkeys = rng.range(4, 14);
+        // one round in four hammers a single key: everything meets on one shard lock
+        let nkeys = if round % 4 == 3 { 2 } else { rng.range(4, 14) };
         let per_thread = 1500u64;
         let va = *rng.pick(&[0u8, 4, 4]);
         verif::clock::set_ns(1_700_000_000_000_000_000);
@@ -1094,6 +1095,8 @@ pub fn suite_stress(t: &mut Trace, seed: u64, rounds: u64) -> String {
         let lookups = Arc::new(AtomicU64::new(0));
         let accepted: Arc<Mutex<Vec<u64>>> = Arc::new(Mutex::new(Vec::new()));
         let vetoes: Arc<Mutex<Vec<(u64, u64)>>> = Arc::new(Mutex::new(Vec::new()));
+        let progress = Arc::new(AtomicU64::new(0));
+        let current: Arc<Vec<AtomicU64>> = Arc::new((0..nthreads).map(|_| AtomicU64::new(0)).collect());
         let mut hs = Vec::new();
         for th in 0..nthreads {
             let ck = ck.clone();
@@ -1101,21 +1104,31 @@ pub fn suite_stress(t: &mut Trace, seed: u64, rounds: u64) -> String {
             let accepted = accepted.clone();
             let mut r = Rng::new(seed.wrapping_mul(31).wrapping_add(round * 97 + th as u64));
             let vetoed: Arc<Mutex<Vec<(u64, u64)>>> = vetoes.clone();
+            let progress = progress.clone();
+            let current = current.clone();
             hs.push(std::thread::spawn(move || {
                 let mut mine = Vec::new();
                 EXITS.with(|e| e.borrow_mut().clear());
                 for i in 0..per_thread {
                     let idx = r.range(1, nkeys);
-                    match r.below(10) {
+                    progress.fetch_add(1, AO::Relaxed);
+                    let k = r.below(12);
+                    current[th].store(match k { 0..=5 => 0, 6..=8 => 1, 9 => 2, _ => 3 }, AO::Relaxed);
+                    match k {
                         0..=5 => {
                             let _ = do_op(&ck, &Op::Get { idx, conf: 0 });
                             lookups.fetch_add(1, AO::SeqCst);
+                        }
+                        10 | 11 => {
+                            // (get_ttl reads the store without feeding the estimator: not a lookup)
+                            let _ = do_op(&ck, &Op::GetTtl { idx, conf: 0 });
                         }
                         6..=8 => {
                             // unique, and interleaved between the threads (who holds the newer value varies)
                             let val = 1_000_000 + ((i << 4) | th as u64);
                             let cost = r.range(1, 4) as i64;
-                            if do_op(&ck, &Op::Insert { idx, conf: 0, val, cost, ttl_ns: 0, only: false }) == "true" {
+                            let ttl_ns = if val % 3 == 0 { 3_600_000_000_000 } else { 0 };
+                            if do_op(&ck, &Op::Insert { idx, conf: 0, val, cost, ttl_ns, only: false }) == "true" {
                                 mine.push(val);
                             }
                             // what this write replaced in the store was handed to on_exit inside the call
@@ -1134,12 +1147,36 @@ pub fn suite_stress(t: &mut Trace, seed: u64, rounds: u64) -> String {
                 accepted.lock().unwrap().extend(mine);
             }));
         }
+        // everybody must come back: a thread that is still inside a call after 30 s without anybody
+        // making progress is blocked for good (threads cannot be killed: the round is given up)
+        let fl = if is_async { "async" } else { "sync" };
+        let t0 = Instant::now();
+        let mut last = (progress.load(AO::SeqCst), Instant::now());
+        while hs.iter().any(|h| !h.is_finished()) {
+            std::thread::sleep(Duration::from_millis(2));
+            let p = progress.load(AO::SeqCst);
+            if p != last.0 {
+                last = (p, Instant::now());
+            }
+            if last.1.elapsed() > Duration::from_secs(10) || t0.elapsed() > Duration::from_secs(120) {
+                break;
+            }
+        }
+        if hs.iter().any(|h| !h.is_finished()) {
+            let what = ["get()", "insert()", "remove()", "get_ttl()", "get_mut()"];
+            let inside: Vec<&str> = current.iter().map(|c| what[(c.load(AO::SeqCst) as usize).min(4)]).collect();
+            let msg = format!("{} threads={} keys={}: no operation has completed for 10 s, the threads are inside {:?}: deadlock", fl, nthreads, nkeys, inside);
+            fails.push(("C20", round, msg.clone()));
+            fails.push(("C03", round, msg));
+            t.step("stress deadlocked");
+            t.mark_nontrivial();
+            break;
+        }
         let mut panicked = false;
         for h in hs {
             panicked |= h.join().is_err();
         }
         total_ops += nthreads as u64 * per_thread;
-        let fl = if is_async { "async" } else { "sync" };
         if panicked {
             fails.push(("C20", round, format!("{}: a client thread panicked under parallel load", fl)));
         }
